@@ -42,12 +42,14 @@ META = {
                  "cases and npy-stack round trips replayed",
     "level_text": "TLC checks every interleaving of the block tasks (acquire / write-begin / write-end / load / release) of a menu "
                   "of store calls (1-2 sources, <= 4 (quick) / 6 (thorough) blocks, 1-d and 2-d, two targets, two sources in one "
-                  "target, stepped regions) x lock in {False, True, Lock()} x {compute, compute+return_stored, compute=False, "
+                  "target, stepped regions, one array stored twice: tiled into one target, into two targets, into overlapping regions "
+                  "with equal content) x lock in {False, True, Lock()} x {compute, compute+return_stored, compute=False, "
                   "compute=False+return_stored}: writes never overlap, are mutually exclusive under a lock, land only on their "
                   "own cells, every cell is written once, target[region] = source and the rest is untouched at the end, nothing "
                   "happens before compute, loads follow their store, every schedule terminates. Complete behaviours are replayed "
                   "step by step on da.store (all for the small calls, sampled for the others). Every chunking x region offset / "
-                  "step / padding of sources up to (2,3) (quick) / (3,3),(2,2,2) (thorough) is replayed; recorded traces of "
+                  "step / padding of sources up to (2,3) (quick) / (3,3),(2,2,2) (thorough) is replayed, and every chunking x tiling "
+                  "(one array stored twice into one target: gap, adjacent, interleaved, overlapping by whole periods); recorded traces of "
                   "random calls on the synchronous and threaded schedulers are decided by TLC. npy stack: every chunking x axis "
                   "of the shapes (1..5), (2,3), (3,2), (3,3), (2,2,2) (quick) plus (5,2), (2,5), (4,3), (3,2,3), (2,3,3) (thorough).",
     "level_note": "Trusted: TLC, the instrumented target / lock (positions via an index grid), NumPy assignment as reference guard. "
@@ -57,16 +59,17 @@ META = {
                   "overlapping regions in one call (caller error), real-time overlap of NumPy writes inside one __setitem__.",
 }
 
-INVS = ["WritesRespectContract", "NoOverlap", "MutualExclusion", "OutsideUntouched", "WrittenCorrect", "NothingBeforeCompute",
+INVS = ["WritesRespectContract", "NoOverlap", "WriteCounts", "MutualExclusion", "OutsideUntouched", "WrittenCorrect", "NothingBeforeCompute",
         "FinalContent", "LoadSeesStored", "LoadsComplete", "HolderIsActive"]
 PROPS = ["WrittenOnce", "Terminates"]
 SMODES = {"now": (True, False), "nowret": (True, True), "lazy": (False, False), "lazyret": (False, True)}   # compute, return_stored
 
 
-def src(shape, chunks, tgt, start=None, step=None, base=0):
+def src(shape, chunks, tgt, start=None, step=None, base=0, per=0):
+    """per: period of the content in elements (0 = every element has its own id)"""
     nd = len(shape)
     return {"shape": list(shape), "chunks": [list(c) for c in chunks], "tgt": tgt, "start": list(start or [0] * nd),
-            "step": list(step or [1] * nd), "base": base}
+            "step": list(step or [1] * nd), "base": base, "per": per or max(1, int(np.prod(shape)))}
 
 
 # the calls whose interleavings TLC explores (positive chunks; <= 4 blocks) ...
@@ -77,6 +80,11 @@ MENU = [
     {"tshape": [[5]], "src": [src([2], [[1, 1]], 1), src([2], [[2]], 1, [3], base=2)]},
     {"tshape": [[6]], "src": [src([3], [[1, 2]], 1, [1], [2])]},
     {"tshape": [[2, 2]], "src": [src([2, 2], [[2], [1, 1]], 1)]},
+    # one array stored several times in one call: tiled into one target (adjacent regions), into two targets,
+    # into overlapping regions (periodic content: equal elements on the overlap)
+    {"tshape": [[4]], "src": [src([2], [[1, 1]], 1), src([2], [[1, 1]], 1, [2])]},
+    {"tshape": [[2], [2]], "src": [src([2], [[1, 1]], 1), src([2], [[1, 1]], 2)]},
+    {"tshape": [[6]], "src": [src([4], [[2, 2]], 1, per=2), src([4], [[2, 2]], 1, [2], per=2)]},
 ]
 # ... and the larger ones of the thorough tier (<= 6 blocks)
 MENU_T = [
@@ -84,6 +92,8 @@ MENU_T = [
     {"tshape": [[7], [3, 2]], "src": [src([3], [[1, 1, 1]], 1, [1], [2]), src([3, 2], [[1, 2], [2]], 2, base=3)]},
     {"tshape": [[4, 2]], "src": [src([2, 2], [[1, 1], [2]], 1), src([2, 2], [[2], [1, 1]], 1, [2, 0], base=4)]},
     {"tshape": [[8]], "src": [src([6], [[1, 1, 2, 1, 1]], 1, [2])]},
+    {"tshape": [[5, 2]], "src": [src([2, 2], [[1, 1], [2]], 1), src([2, 2], [[1, 1], [2]], 1, [3, 0])]},
+    {"tshape": [[6]], "src": [src([3], [[1, 2]], 1, step=[2]), src([3], [[1, 2]], 1, [1], [2])]},
 ]
 
 
@@ -239,10 +249,15 @@ def dup_pairs(call):
     for i, a in enumerate(call["src"]):
         for j in range(i + 1, len(call["src"])):
             b = call["src"][j]
-            if (a["base"], a["shape"], a["chunks"], a["start"], a["step"]) == (b["base"], b["shape"], b["chunks"], b["start"], b["step"]) \
+            if (a["base"], a["per"], a["shape"], a["chunks"], a["start"], a["step"]) == (b["base"], b["per"], b["shape"], b["chunks"], b["start"], b["step"]) \
                     and a["tgt"] != b["tgt"] and call["tshape"][a["tgt"] - 1] == call["tshape"][b["tgt"] - 1]:
                 out.append((i, j))
     return out
+
+
+def source_array(s):
+    n = int(np.prod(s["shape"])) if s["shape"] else 1
+    return (s["base"] + 1 + np.arange(n, dtype="i8") % s["per"]).reshape(tuple(s["shape"]))
 
 
 def build(call, rec, plain=False, region_style=0):
@@ -252,11 +267,9 @@ def build(call, rec, plain=False, region_style=0):
     made = {}
     sources, targets, regions = [], [], []
     for s in call["src"]:
-        key = (s["base"], tuple(s["shape"]), tuple(map(tuple, s["chunks"])))
-        if key not in made:      # the same (base, shape, chunks) twice = the same dask array stored twice
-            n = int(np.prod(s["shape"])) if s["shape"] else 1
-            made[key] = da.from_array(np.arange(s["base"] + 1, s["base"] + n + 1, dtype="i8").reshape(tuple(s["shape"])),
-                                      chunks=tuple(map(tuple, s["chunks"])))
+        key = (s["base"], tuple(s["shape"]), tuple(map(tuple, s["chunks"])), s["per"])
+        if key not in made:      # the same (base, shape, chunks, period) twice = the same dask array stored twice
+            made[key] = da.from_array(source_array(s), chunks=tuple(map(tuple, s["chunks"])))
         sources.append(made[key])
         targets.append(tobjs[s["tgt"] - 1])
         tsh = call["tshape"][s["tgt"] - 1]
@@ -279,8 +292,7 @@ def numpy_reference(call):
     """t[region] = x with plain NumPy: the reference guard for Store!Expected"""
     ts = [np.zeros(tuple(s), dtype="i8") for s in call["tshape"]]
     for s in call["src"]:
-        n = int(np.prod(s["shape"])) if s["shape"] else 1
-        x = np.arange(s["base"] + 1, s["base"] + n + 1, dtype="i8").reshape(tuple(s["shape"]))
+        x = source_array(s)
         reg = tuple(slice(a, a + st * (max(m, 1) - 1) + 1 if m else a, st) for a, st, m in zip(s["start"], s["step"], s["shape"]))
         ts[s["tgt"] - 1][reg] = x
     return [[int(v) for v in t.ravel()] for t in ts]
@@ -408,7 +420,7 @@ class Stepper:
         self.reads = {}
         self.nb = len(self.blk)
         self.inside = set()
-        self.nwr = 0
+        self.written = set()
 
     # -- the scheduler handed to dask
     def get(self, dsk, keys, **kwargs):
@@ -437,7 +449,8 @@ class Stepper:
                     cache[key] = node(cache)
                 except _ProbeHit as hit:
                     cand = [j + 1 for j, b in enumerate(self.blk) if b["t"] == hit.t and sorted(b["pos"]) == sorted(hit.pos)]
-                    if len(cand) != 1 or cand[0] in tasks:
+                    cand = [k for k in cand if k not in tasks]      # (blocks of overlapping regions may coincide)
+                    if not cand:
                         raise Mismatch("BlockWrite", {"key": str(key), "touches": [hit.t, hit.pos]})
                     tasks[cand[0]] = key
         finally:
@@ -525,7 +538,7 @@ class Stepper:
             g.allow(who)
             self.expect(who, self.after_write())
             self.inside.discard(who)
-            self.nwr += len(self.blk[k - 1]["pos"])
+            self.written |= {(self.blk[k - 1]["t"], p) for p in self.blk[k - 1]["pos"]}
         elif a in ("load", "lread"):
             if a == "lread" and not locked:
                 self.launch(k)
@@ -549,8 +562,8 @@ class Stepper:
             raise Mismatch("Projection:holder", {"step": self.i, "observed": self.user.owner, "expected": e["hold"]})
         if sorted(self.inside) != sorted(e["fl"]):
             raise Mismatch("Projection:inflight", {"step": self.i, "observed": sorted(self.inside), "expected": e["fl"]})
-        if self.nwr != e["nwr"]:
-            raise Mismatch("Projection:written", {"step": self.i, "observed": self.nwr, "expected": e["nwr"]})
+        if len(self.written) != e["nwr"]:
+            raise Mismatch("Projection:written", {"step": self.i, "observed": len(self.written), "expected": e["nwr"]})
         reads = {}
         for ev in self.rec.ev:
             if ev["a"] == "rd":
@@ -592,7 +605,7 @@ class Stepper:
             if self.i != len(self.ev):
                 raise Mismatch("Gate:Incomplete", {"consumed": self.i, "of": len(self.ev)})
             if ret:
-                want = [list(range(s["base"] + 1, s["base"] + int(np.prod(s["shape"])) + 1)) for s in self.call["src"]]
+                want = [[int(v) for v in source_array(s).ravel()] for s in self.call["src"]]
                 have = [[int(v) for v in np.asarray(x).ravel()] for x in got]
                 if have != want:
                     raise Mismatch("ReturnedContent", {"observed": have, "expected": want})
@@ -662,22 +675,63 @@ def _comp(rng, n, zero=False):
     return out
 
 
+def well_formed(call):
+    """Python mirror of Store!WellFormed (in bounds; where regions overlap the elements agree)"""
+    seen = [dict() for _ in call["tshape"]]
+    for s in call["src"]:
+        T = call["tshape"][s["tgt"] - 1]
+        if len(T) != len(s["shape"]):
+            return False
+        x = source_array(s)
+        for g in itertools.product(*[range(n) for n in s["shape"]]):
+            ti = [a + st * i for a, st, i in zip(s["start"], s["step"], g)]
+            if any(v >= t for v, t in zip(ti, T)):
+                return False
+            if seen[s["tgt"] - 1].setdefault(tuple(ti), int(x[g])) != int(x[g]):
+                return False
+    return True
+
+
 def gen_call(rng):
-    """a random store call: 1-3 sources, 1-3 targets, 1-3 axes; sources sharing a target lie behind each other along
-    axis 0; sometimes the same array is stored twice; sometimes a zero-width chunk / a zero-length axis"""
+    while True:
+        call = _gen_call(rng)
+        if well_formed(call):
+            return call
+
+
+def _gen_call(rng):
+    """a random store call: 1-3 sources, 1-3 targets, 1-3 axes.  A further source is a new array in a new target, a new
+    array behind the others in an existing target, or an array that is already being stored: into a new equal target,
+    or again into its own target - behind itself, interleaved with itself (step 2), or overlapping itself by whole
+    periods (periodic content).  Sometimes a zero-width chunk / a zero-length axis."""
     nd = rng.choice([1, 1, 2, 2, 2, 3])
-    nsrc = rng.choice([1, 1, 2, 2, 3])
+    nsrc = rng.choice([1, 2, 2, 2, 3, 3])
     cap = {1: 6, 2: 4, 3: 3}[nd]
     tshape, srcs, base = [], [], 0
     for _ in range(nsrc):
         r = rng.random()
-        if srcs and r < 0.12:
+        if srcs and r < 0.10:                      # the same array into a second, equal target
             s0 = rng.choice(srcs)
             tshape.append(list(tshape[s0["tgt"] - 1]))
             srcs.append(dict(s0, tgt=len(tshape)))
             continue
+        if srcs and r < 0.30:                      # the same array again into its own target
+            s0 = rng.choice(srcs)
+            T = tshape[s0["tgt"] - 1]
+            n0, a0, st0 = s0["shape"][0], s0["start"][0], s0["step"][0]
+            row = int(np.prod(s0["shape"][1:])) if len(s0["shape"]) > 1 else 1
+            how = rng.choice(["behind", "behind", "interleaved", "overlap"])
+            if how == "interleaved" and st0 >= 2:
+                a = a0 + rng.randint(1, st0 - 1)
+            elif how == "overlap" and row and s0["per"] % row == 0 and s0["per"] < max(1, n0 * row):
+                a = a0 + st0 * (s0["per"] // row) * rng.randint(0, max(1, (n0 * row) // s0["per"] - 1))
+            else:
+                a = T[0] + rng.choice([0, 0, 1])
+            T[0] = max(T[0], a + st0 * (max(n0, 1) - 1) + 1)
+            srcs.append(dict(s0, start=[a] + list(s0["start"][1:])))
+            continue
         shape, start, step = [], [], []
-        share = srcs and r < 0.4
+        share = srcs and r < 0.5
         if share:
             t = rng.randrange(len(tshape))
             T = tshape[t]
@@ -708,8 +762,12 @@ def gen_call(rng):
         zero = rng.random() < 0.08
         zax = rng.randrange(nd)
         chunks = [_comp(rng, n, zero and d == zax) for d, n in enumerate(shape)]
-        srcs.append({"shape": shape, "chunks": chunks, "tgt": tg, "start": start, "step": step, "base": base})
-        base += int(np.prod(shape)) if shape else 1
+        size = int(np.prod(shape)) if shape else 1
+        per = max(1, size)
+        if shape and shape[0] >= 2 and size and rng.random() < 0.25:      # periodic along axis 0
+            per = rng.randint(1, shape[0] - 1) * (size // shape[0])
+        srcs.append({"shape": shape, "chunks": chunks, "tgt": tg, "start": start, "step": step, "base": base, "per": per})
+        base += max(1, size)
     return {"tshape": tshape, "src": srcs}
 
 
@@ -728,11 +786,31 @@ def smode_of(rec):
     return {(False, False): "now", (False, True): "nowret", (True, False): "lazy", (True, True): "lazyret"}[(rec["lazy"], rec["ret"])]
 
 
+def repeats(call):
+    """the ways one array occurs several times in the call (same base / period / shape / chunks = same dask array)"""
+    out = set()
+    srcs = call["src"]
+    for i, a in enumerate(srcs):
+        for b in srcs[i + 1:]:
+            if (a["base"], a["per"], a["shape"], a["chunks"]) != (b["base"], b["per"], b["shape"], b["chunks"]):
+                continue
+            if a["tgt"] != b["tgt"]:
+                out.add("other-target")
+            elif (a["start"], a["step"]) == (b["start"], b["step"]):
+                out.add("same-region")
+            else:
+                out.add("same-target")
+    return out
+
+
 def classify(rec, clause):
     """signature = the input class of the failing run, not its numbers"""
     if rec["kind"] == "npy":
         return "npy:%s%s" % (clause, ":zero-chunk" if any(0 in c for c in rec["chunks"]) and min(rec["shape"]) > 0 else "")
     call = rec["call"]
+    if "same-target" in repeats(call) and clause in ("AllWritten", "FinalContent", "StoredOnReturn", "StoredOnCompute", "ReturnedContent",
+                                                     "WriteOnce"):
+        return "store:same-source-twice-into-one-target:%s" % clause
     if dup_pairs(call) and clause in ("AllWritten", "FinalContent", "StoredOnReturn", "StoredOnCompute", "ReturnedContent"):
         return "store:same-source-into-equal-targets"
     if has_zero_chunk(call) and all(min(s["shape"] or [1]) > 0 for s in call["src"]):
@@ -773,9 +851,9 @@ def _geom_work(item):
     elif rec["final"] != ref:
         clause = "FinalContent"
     elif rec["obs"] == "events":
-        # the writes seen are exactly the cells of the block writes of the specification (as a set of cells)
-        want = sorted((b["t"], p, v) for b in exp["blocks"] for p, v in zip(b["pos"], b["val"]))
-        have = sorted((e["t"], p, v) for e in rec["ev"] if e["a"] == "wb" for p, v in zip(e["pos"], e["val"]))
+        # the writes seen touch exactly the cells of the block writes of the specification, with their values
+        want = {(b["t"], p, v) for b in exp["blocks"] for p, v in zip(b["pos"], b["val"])}
+        have = {(e["t"], p, v) for e in rec["ev"] if e["a"] == "wb" for p, v in zip(e["pos"], e["val"])}
         if want != have:
             clause = "WriteOnce"
     return (clause, rec, variant)
@@ -838,7 +916,7 @@ def export_triples(calls, quick):
         nb = n_blocks(call)
         for lm in ("auto", "user"):
             for sm in SMODES:
-                if nb <= 3 or (sm != "nowret" and nb <= 4 and not quick):
+                if nb <= 3 or (sm != "nowret" and nb <= 4 and (not quick or repeats(call))):
                     out.append((c, lm, sm))
         if nb <= 2:
             out += [(c, "none", sm) for sm in SMODES]
@@ -891,7 +969,7 @@ def explore(ctx, calls, triples_design, triples_export, plans):
     from ..sidebyside import in_parallel
     design = mc_model(ctx, calls, triples_design, False) if triples_design else None
     export = mc_model(ctx, calls, triples_export, True)
-    cas = ctx.model(ctx.spec("array", "StoreCasesMC.tla"), {"Plans": TLA(plans)}, invariants=["GeomOK", "NpyOK"])
+    cas = ctx.model(ctx.spec("array", "StoreCasesMC.tla"), {"Plans": TLA(plans)}, invariants=["GeomOK", "TileOK", "NpyOK"])
     res = in_parallel([(lambda: ctx.tlc(design[0], design[1], label="design: all interleavings", timeout=2400)) if design else (lambda: None),
                        lambda: ctx.tlc_cases(export[0], export[1], label="design+behaviours", timeout=2400)[0],
                        lambda: ctx.tlc_cases(cas[0], cas[1], label="cases: geometry + npy stack", timeout=2400)[0]])
@@ -900,7 +978,7 @@ def explore(ctx, calls, triples_design, triples_export, plans):
     for b in behs:                          # (TLC's dump order depends on its worker threads: sort for determinism)
         b["call"] = calls[b["c"] - 1]
     cases = sorted(res[2], key=lambda c: json.dumps(c["c"], sort_keys=True))
-    return behs, [c for c in cases if c["c"]["fam"] == "geom"], [c for c in cases if c["c"]["fam"] == "npy"]
+    return behs, [c for c in cases if c["c"]["fam"] in ("geom", "tile")], [c for c in cases if c["c"]["fam"] == "npy"]
 
 
 def _any_work(tagged):
@@ -984,6 +1062,7 @@ def sizes(ctx):
              plan("geom", [(2, 3), (3, 2)] if q else [(2, 3), (3, 2), (3, 3)], (0, 1), (1, 2), (0,) if q else (0, 1)),
              plan("npy", [(1,), (2,), (3,), (4,), (5,), (2, 3), (3, 2), (3, 3), (2, 2, 2)] if q else
                   [(1,), (2,), (3,), (4,), (5,), (2, 3), (3, 2), (3, 3), (5, 2), (2, 5), (4, 3), (2, 2, 2), (3, 2, 3), (2, 3, 3)])]
+    plans.append(plan("tile", [(2,), (3,), (4,), (2, 2)] if q else [(2,), (3,), (4,), (5,), (2, 2), (3, 2), (2, 2, 2)], steps=(1, 2)))
     if not q:
         plans.append(plan("geom", [(5,), (2, 2, 2)], (0, 1), (1, 2), (0,), True))
     return "{" + ", ".join(plans) + "}"
@@ -1008,8 +1087,10 @@ def run(ctx):
             locked = ctx.rng.sample(locked, cap_b // 2)
         behs = locked + ctx.rng.sample(free, min(len(free), cap_b - len(locked)))
         sampled = True
-    if len(gcases) > cap_g:
-        gcases = ctx.rng.sample(gcases, cap_g)
+    if len(gcases) > cap_g:                # every tiling case, a sample of the single-source geometry cases
+        tiles = [c for c in gcases if c["c"]["fam"] == "tile"]
+        geoms = [c for c in gcases if c["c"]["fam"] != "tile"]
+        gcases = tiles + ctx.rng.sample(geoms, max(0, cap_g - len(tiles)))
         sampled = True
     gitems = [(c["c"], c["e"], ctx.rng.randrange(168), "g%d" % i) for i, c in enumerate(gcases)]
     nitems = [(c["c"], c["e"], ctx.rng.randrange(60), "n%d" % i, ctx.scratch) for i, c in enumerate(ncases)]
@@ -1107,6 +1188,10 @@ def mutants():
             ("    if compute:\n        if not return_stored:", "    if compute or not return_stored:\n        if not return_stored:")], also=[da])),
         ("store: every source is written through the first region", lambda: patched(core, "store", [
             ("region=r,\n                lock=lock,\n                return_stored=return_stored,", "region=regions_list[0],\n                lock=lock,\n                return_stored=return_stored,")], also=[da])),
+        ("store: the region is missing from the name of the store layer (tiling one array collapses)", lambda: patched(core, "store", [
+            ("s.name, target_token, r, lock, return_stored, load_stored", "s.name, target_token, lock, return_stored, load_stored")], also=[da])),
+        ("store: the store layer is named after the content of the target, not its identity", lambda: patched(core, "store", [
+            ("target_token = t if isinstance(t, Delayed) else (type(t).__name__, id(t))", "target_token = t")], also=[da])),
         ("from_npy_stack reads the files in reverse order", lambda: patched(core, "from_npy_stack", [
             ("for i in range(len(chunks[axis]))", "for i in reversed(range(len(chunks[axis])))")], also=[da])),
         ("to_npy_stack writes merged chunks into the info file", lambda: patched(core, "to_npy_stack", [
@@ -1119,16 +1204,17 @@ def selftest(ctx):
     ok = True
     calls = MENU
     triples = [(1, "user", "now"), (1, "user", "lazyret"), (1, "auto", "nowret"), (1, "none", "now"), (4, "none", "lazy"),
-               (4, "user", "nowret"), (5, "user", "lazy"), (3, "auto", "lazyret")]
+               (4, "user", "nowret"), (5, "user", "lazy"), (3, "auto", "lazyret"), (7, "user", "now"), (8, "auto", "lazy"),
+               (9, "user", "lazyret")]
     plans = "{" + ", ".join([plan("geom", [(2,), (3,)], (0, 2), (1, 2), (0, 1)), plan("geom", [(2, 2)], (0, 1), (1,), (0, 1)),
-                             plan("npy", [(3,), (2, 3)])]) + "}"
+                             plan("tile", [(2,), (3,)], steps=(1, 2)), plan("npy", [(3,), (2, 3)])]) + "}"
     behs, gcases, ncases = explore(ctx, calls, None, triples, plans)
     rng = random.Random(11)
     behs = rng.sample(behs, min(len(behs), 16))
     gcases = rng.sample(gcases, min(len(gcases), 20))
     gitems = [(c["c"], c["e"], rng.randrange(168), "g%d" % i) for i, c in enumerate(gcases)]
     nitems = [(c["c"], c["e"], rng.randrange(60), "n%d" % i, ctx.scratch) for i, c in enumerate(ncases)]
-    sitems = [it for it in gen_items(rng, 90, "s") if not dup_pairs(it["call"])][:30]
+    sitems = gen_items(rng, 40, "s")
 
     def attempt(tag, npy=None):
         out = []
